@@ -464,9 +464,12 @@ def check_meek_iteration_helper(ctx, f, loop):
         return False
     L = tg[1].id
     args = [a.id if isinstance(a, ast.Name) else None for a in call.args]
-    if args != [sv, L] or len(callee.params) != 2:
+    if args == [L] and len(callee.params) == 1:
+        ps, pl = None, callee.params[0]         # the step does not take the status (it is always K on entry): only `last` is threaded
+    elif args != [sv, L] or len(callee.params) != 2:
         return False
-    ps, pl = callee.params
+    else:
+        ps, pl = callee.params
     what = 'Meek iteration continues only with a strictly smaller total surplus (variant on scaled integers)'
     ccfg = cfg_of(callee)
     catoms = _atoms(ctx, callee)
@@ -489,7 +492,7 @@ def check_meek_iteration_helper(ctx, f, loop):
             return _may_be_token(catoms, v, K, facts)
         return False
 
-    facts0 = {'T:' + ps: K}
+    facts0 = {'T:' + ps: K} if ps else {}
     # (1) every continuing return passed (t2, False)
     p1 = search(ccfg, ccfg.entry, dict(facts0), None, set(), catoms, on_node=on_node, accept=returns_iterate,
                 cut_edge=lambda n, lab, fa: n is t2 and lab is False)
